@@ -18,6 +18,7 @@ func init() {
 			}
 			return bfs.Spec{Name: "C20", New: func() bfs.System { return c20.New(b) }, MaxDepth: b.Depth + 1, Deadline: d}
 		},
+		divergenceViolates: true,
 		rule: "explicit-state BFS over the real app: state=(vesting params, pool balance); every op is one real ABCI block, optionally with a parameter change through the params proposal handler; states deduplicated on (enable flag, reward list verbatim, pool balances)",
 		assume: []string{"cosmos-sdk bank/params/distribution are trusted", "zero transaction fees (fee market NoBaseFee) so the fee collector receives vesting only", "reward lists with a duplicated denomination: only supply/pool clauses are demanded (statement ambiguous); panics there are C15's"},
 		bounds: func(tier string) map[string]interface{} {
